@@ -909,6 +909,17 @@ func (g *Gen) evalCall(x *CExpr, env *Env) (Val, error) {
 			return Val{T: fmt.Sprintf("(%s %s)", un, v.T), S: g.sortOf(t), Ty: t}, nil
 		}
 		return Val{}, fmt.Errorf("cast(x, \"type\")")
+	case "iface": // iface(x): x converted to an interface value (as the compiler does implicitly)
+		if err := evalArgs(); err != nil {
+			return Val{}, err
+		}
+		if len(args) == 1 && args[0].Ty != nil {
+			if _, isIface := types.Unalias(args[0].Ty).Underlying().(*types.Interface); isIface {
+				return args[0], nil
+			}
+			return g.makeInterface(args[0], args[0].Ty, types.NewInterfaceType(nil, nil)), nil
+		}
+		return Val{}, fmt.Errorf("iface(x) needs a typed value")
 	case "Is":
 		if err := evalArgs(); err != nil {
 			return Val{}, err
